@@ -122,6 +122,65 @@ class Fn:
         return self._succ
 
     @property
+    def tsucc(self):
+        """Successors after jump threading of the mir-opt-level=0 lowering of `&&`, `||`, `matches!`:
+        a block J (only storage markers) that switches on a bool/int temp L, entered by `goto` from
+        predecessors whose last write to L is a constant, is bypassed: P -> target(const)."""
+        if getattr(self, "_tsucc", None) is None:
+            ts = [list(s) for s in self.succ]
+            for j, blk in enumerate(self.bbs):
+                t = blk["t"]
+                if t[0] != "switch" or t[1][0] not in ("c", "m") or t[1][1][1]:
+                    continue
+                if any(s[0] != "dead" for s in blk["s"]):
+                    continue
+                L = t[1][1][0]
+                for p in self.pred[j]:
+                    pt = self.bbs[p]["t"]
+                    if pt[0] != "goto":
+                        continue
+                    val = None
+                    for s in self.bbs[p]["s"]:
+                        if s[0] == "a" and s[1][0] == L:
+                            if not s[1][1] and s[2][0] == "use" and s[2][1][0] == "k" and s[2][1][1].get("k") == "int":
+                                val = s[2][1][1]["v"]
+                            else:
+                                val = None
+                    if val is None:
+                        continue
+                    tgt = t[3]
+                    for v, b in t[2]:
+                        if v == val:
+                            tgt = b
+                    ts[p] = [tgt]
+            self._tsucc = ts
+        return self._tsucc
+
+    def reach(self, start, avoid_blocks=(), avoid_edges=(), threaded=True):
+        succ = self.tsucc if threaded else self.succ
+        seen = set()
+        st = [start]
+        ab = set(avoid_blocks)
+        ae = set(avoid_edges)
+        while st:
+            b = st.pop()
+            if b in seen or b in ab:
+                continue
+            seen.add(b)
+            for s in succ[b]:
+                if (b, s) not in ae:
+                    st.append(s)
+        return seen
+
+    def edge_dominates(self, src, tgt, b):
+        """every (threaded) path from entry to b takes the edge src->tgt"""
+        return b not in self.reach(0, avoid_edges=[(src, tgt)])
+
+    def block_dominates_t(self, a, b):
+        """a dominates b in the threaded CFG"""
+        return a == b or b not in self.reach(0, avoid_blocks=[a])
+
+    @property
     def pred(self):
         if self._pred is None:
             p = [[] for _ in range(self.n)]
@@ -331,3 +390,42 @@ class Fn:
 def switch_edges(t):
     """[(value_or_None, target)] of a switch terminator; None = otherwise"""
     return [(v, b) for v, b in t[2]] + [(None, t[3])]
+
+
+def disc_switches(fn):
+    """(bb, place_whose_discriminant_is_read, switch_terminator) for `match`-style switches"""
+    out = []
+    for b in range(fn.n):
+        t = fn.term(b)
+        if t[0] != "switch" or t[1][0] not in ("c", "m"):
+            continue
+        L = t[1][1][0]
+        for s in fn.bbs[b]["s"]:
+            if s[0] == "a" and s[1] == [L, []] and s[2][0] == "disc":
+                out.append((b, s[2][1], t))
+    return out
+
+
+def region_of_edges(fn, edges):
+    """blocks every (threaded) path to which takes one of `edges`"""
+    allr = fn.reach(0)
+    without = fn.reach(0, avoid_edges=edges)
+    return allr - without
+
+
+def adt_variants(facts, adt_id):
+    for a in facts.records("adt"):
+        if a["id"] == adt_id:
+            return {v["name"]: v["discr"] for v in a["variants"]}
+    return None
+
+
+def promoted_variant(const):
+    """variant name if the constant operand is a promoted `&Enum::Variant`"""
+    if not const or const.get("k") != "promoted":
+        return None
+    for blk in const["body"]:
+        for s in blk["s"]:
+            if s[0] == "a" and s[2][0] == "agg" and s[2][1][0] == "adt":
+                return s[2][1][2]
+    return None
